@@ -147,7 +147,7 @@ static void record_type(vf::Rng &rng, long nhist, long nsteps, FILE *out) {
             else if (r < 82) { op = "shr"; k = rng.below(2) ? rng.below(W * 3 + 2) : rng.below(total + 8); b >>= (SizeT32)k; }
             else if (r < 85) { op = "or"; b |= w; arg = bytes_of_word(w); }
             else if (r < 88) { op = "and"; b &= w; arg = bytes_of_word(w); }
-            else if (r < 90 && W < 64) { op = (r & 1) ? "or" : "and"; SizeT64 big = rng.next() >> rng.below(60); if (BI::TotalBits() < 64) big &= ((SizeT64{1} << BI::TotalBits()) - 1); if (r & 1) b |= big; else b &= big; arg = bytes_of_word(big); }
+            else if (r < 90 && W < 64) { op = (r & 1) ? "or" : "and"; SizeT64 big = rng.next() >> rng.below(60); if ((r & 1) && BI::TotalBits() < 64) big &= ((SizeT64{1} << BI::TotalBits()) - 1); /* an And always fits: its operand may be wider than the number */ if (r & 1) b |= big; else b &= big; arg = bytes_of_word(big); }
             else if (r < 93) { op = "firstbit"; k = b.NotZero() ? (long)b.FindFirstBit() : 0; }
             else if (r < 95) { op = "lastbit"; k = b.NotZero() ? (long)b.FindLastBit() : 0; }
             else if (r < 98) { op = "cmp"; arg = bytes_of_word(w); k = 32 * (b < w) + 16 * (b <= w) + 8 * (b > w) + 4 * (b >= w) + 2 * (b == w) + (b != w); }
